@@ -33,6 +33,9 @@ var syncAPI = map[string]bool{"Lock": true, "Unlock": true, "RLock": true, "RUnl
 	"Wait": true, "Done": true, "Add": true, "Load": true, "Store": true, "Swap": true, "CompareAndSwap": true, "Get": true, "Put": true,
 	"Range": true, "Delete": true, "LoadOrStore": true, "LoadAndDelete": true, "RLocker": true, "Signal": true, "Broadcast": true}
 
+// lock operations are scheduling points inside the vsync shim already
+var lockAPI = map[string]bool{"Lock": true, "Unlock": true, "RLock": true, "RUnlock": true, "TryLock": true, "TryRLock": true, "RLocker": true}
+
 type pkgInfo struct {
 	dir        string
 	name       string
@@ -214,6 +217,7 @@ type instr struct {
 	fset      *token.FileSet
 	fine      bool
 	visible   bool
+	sawSync   bool // the statement being analysed calls a (non-lock) sync-API method on package-level state
 	ticksOnly bool // only loop-iteration counters: no scheduling points, no access events, "sync" left alone
 	sites     *siteTab
 	recv      string // receiver name of the current method if its type is a singleton type
@@ -401,6 +405,10 @@ func (in *instr) accesses(s ast.Stmt) []acc {
 					if p := in.path(sel.X); p != "" {
 						if !syncAPI[sel.Sel.Name] {
 							add(p, false)
+						} else if !lockAPI[sel.Sel.Name] {
+							// an operation on a shared synchronisation object (sync.Map, atomic value, pool, once …): no
+							// data-access event, but it is a visible operation, so the statement gets a scheduling point
+							in.sawSync = true
 						}
 						for _, a := range x.Args {
 							reads(a)
@@ -546,11 +554,13 @@ func (in *instr) stmts(list []ast.Stmt) []ast.Stmt {
 	var out []ast.Stmt
 	for _, s := range list {
 		site := in.sites.add(in.fset, s.Pos())
+		in.sawSync = false
 		accs := in.accesses(s)
 		if in.ticksOnly {
 			accs = nil
+			in.sawSync = false
 		}
-		if in.fine || (in.visible && len(accs) > 0) {
+		if in.fine || (in.visible && (len(accs) > 0 || in.sawSync)) {
 			out = append(out, in.call("P", site))
 		}
 		for _, a := range accs {
